@@ -637,6 +637,7 @@ def parseBufOp : List String → Option BufOp
   | ["bz", h] => (bytesOfHex (h.drop 1).toString).map BufOp.bufferize
   | ["bs", h] => (bytesOfHex (h.drop 1).toString).map BufOp.bufferizeStr
   | ["ab", h, s] => (bytesOfHex (h.drop 1).toString).map fun r => BufOp.assignBuf r (s == "1")
+  | ["ad", h, r] => do pure (.assignBufTo (← h.toNat?) (← bytesOfHex (r.drop 1).toString))
   | ["rs"] => some .reset
   | ["ow", h, i, b] => do pure (.overwrite (← h.toNat?) (← i.toNat?) (UInt8.ofNat (← b.toNat?)))
   | ["ap", h, q] => do pure (.appendTo (← h.toNat?) (← bytesOfHex (q.drop 1).toString))
@@ -645,27 +646,28 @@ def parseBufOp : List String → Option BufOp
   | _ => none
 
 /-- Observation after a step: contents and capacities of all watched handles. -/
-def parseBufObs : List String → Option (Nat × List (Nat × Bytes))
+def parseBufObs : List String → Option (Nat × List (Option (Nat × Bytes)))
   | nc :: rest => do
     let n ← nc.toNat?
-    let hs ← rest.mapM fun t => match t.splitOn ":" with
-      | [c, h] => do pure ((← c.toNat?), (← bytesOfHex h))
+    let hs ← rest.mapM fun t =>
+      if t == "-" then some none else
+      match t.splitOn ":" with
+      | [c, h] => do pure (some ((← c.toNat?), (← bytesOfHex h)))
       | _ => none
     pure (n, hs)
   | [] => none
 
-/-- What C07 demands of a history: a watched value changes only through a client operation *on that value*.
-Returns the index of the first step that breaks it. -/
-def bufHistoryViolation (ops : List BufOp) (obs : List (List (Nat × Bytes))) : Option Nat :=
-  let rec go (i : Nat) (prev : List (Nat × Bytes)) (ops : List BufOp) (obs : List (List (Nat × Bytes))) : Option Nat :=
+/-- What C07 demands of a history: a watched (not stale) value changes only through a client operation
+*on that value* (or by being assigned anew). Returns the index of the first step that breaks it. -/
+def bufHistoryViolation (ops : List BufOp) (obs : List (List (Option (Nat × Bytes)))) : Option Nat :=
+  let rec go (i : Nat) (prev : List (Option (Nat × Bytes))) (ops : List BufOp) (obs : List (List (Option (Nat × Bytes)))) : Option Nat :=
     match ops, obs with
     | op :: ops', cur :: obs' =>
       let touched : Option Nat := match op with
-        | .overwrite h _ _ | .appendTo h _ | .setNoBuf h _ => some h
+        | .overwrite h _ _ | .appendTo h _ | .setNoBuf h _ | .assignBufTo h _ => some h
         | _ => none
-      let isReset := match op with | .reset => true | _ => false
-      let bad := !isReset && (List.range prev.length).any fun j =>
-        some j != touched && (match prev[j]?, cur[j]? with | some a, some b => !(a.2 == b.2) | _, _ => false)
+      let bad := (List.range prev.length).any fun j =>
+        some j != touched && (match prev[j]?, cur[j]? with | some (some a), some (some b) => !(a.2 == b.2) | _, _ => false)
       if bad then some i else go (i + 1) cur ops' obs'
     | _, _ => none
   go 0 [] ops obs
@@ -678,22 +680,26 @@ def opBufferHistory (st : St) (parts : List (List String)) : String :=
       (" ".intercalate l).splitOn " ; " |>.map fun s => (s.splitOn " ").filter (· ≠ "")
     (match ic.toNat?, (splitSemi opToks).mapM parseBufOp, (splitSemi obsToks).mapM parseBufObs with
      | some initCap, some ops, some obs =>
-       let run (cfg : BufCfg) : List (List (Nat × Bytes)) :=
-         let rec go (s : BufSt) (ops : List BufOp) (obs : List (Nat × List (Nat × Bytes))) (acc : List (List (Nat × Bytes))) : List (List (Nat × Bytes)) :=
+       let run (cfg : BufCfg) : List (List (Option (Nat × Bytes))) :=
+         let rec go (s : BufSt) (ops : List BufOp) (obs : List (Nat × List (Option (Nat × Bytes)))) (acc : List (List (Option (Nat × Bytes)))) : List (List (Option (Nat × Bytes))) :=
            match ops, obs with
            | op :: ops', (nc, _) :: obs' =>
              let s' := bufStep cfg s op nc
-             go s' ops' obs' (acc ++ [s'.handles.map fun h => (h.win.cap, readWin s'.arrays h.win)])
+             go s' ops' obs' (acc ++ [s'.handles.map fun h => if h.stale then none else some (h.win.cap, readWin s'.arrays h.win)])
            | _, _ => acc
          go (initBuf initCap) ops obs []
        let implObs := obs.map (·.2)
-       let _ : BEq (List (List (Nat × Bytes))) := ⟨fun a b => a.length == b.length && (a.zip b).all fun (x, y) =>
-         x.length == y.length && (x.zip y).all fun (p, q) => p.2 == q.2 && (p.2.isEmpty || p.1 == q.1)⟩
-       let sh (o : List (List (Nat × Bytes))) : String :=
-         " ; ".intercalate (o.map fun step => " ".intercalate (step.map fun (c, b) => s!"{c}:" ++ hexOfBytes b))
+       let eqH (p q : Option (Nat × Bytes)) : Bool := match p, q with
+         | none, none => true
+         | some p, some q => p.2 == q.2 && (p.2.isEmpty || p.1 == q.1)
+         | _, _ => false
+       let _ : BEq (List (List (Option (Nat × Bytes)))) := ⟨fun a b => a.length == b.length && (a.zip b).all fun (x, y) =>
+         x.length == y.length && (x.zip y).all fun (p, q) => eqH p q⟩
+       let sh (o : List (List (Option (Nat × Bytes)))) : String :=
+         " ; ".intercalate (o.map fun step => " ".intercalate (step.map fun h => match h with | some (c, b) => s!"{c}:" ++ hexOfBytes b | none => "-"))
        let model (open_ : Bool) := run { openCap := open_ }
        let m := model st.bufOpen
-       let accepted (o : List (List (Nat × Bytes))) : Bool := (bufHistoryViolation ops o).isNone
+       let accepted (o : List (List (Option (Nat × Bytes)))) : Bool := (bufHistoryViolation ops o).isNone
        if implObs == m then
          if accepted m then "agree"
          else if st.bufOpen && accepted (model false) then "known buffer-open-capacity"
